@@ -364,11 +364,13 @@ def hash_fn_static(name, ensures, loops):
               prefix="#[verifier::exec_allows_no_decreases_clause]", sig="        ensures " + ensures,
               obls=["C16.V.hash.static." + name], expect_loops=len(loops), loops={}, inserts=[])
     for k, (x, fold, viewfn, lem, elem) in enumerate(loops):
-        view = "%s(%s@, %s@.len() as int)" % (viewfn, x, x)
-        it["inserts"].append(("loop:%d:before" % k, "let ghost s1_%d = state; proof { %s(%s@, %s@.len() as int); }" % (k, lem, x, x)))
-        it["loops"][k] = """                    invariant idx <= %(x)s.len(), state == %(fold)s(s1_%(k)d, %(view)s, idx as int),
-                        %(view)s.len() == %(x)s@.len(), forall|j: int| 0 <= j < %(x)s@.len() ==> (#[trigger] %(view)s[j]) == %(elem)s,
-                    decreases %(x)s.len() - idx""" % dict(x=x, fold=fold, k=k, view=view, elem=elem)
+        # \u00a7seq\u00a7 / \u00a7ctr\u00a7 / \u00a7acc\u00a7 are replaced by the names found in the source loop (robust to renamed locals)
+        view = "%s(\u00a7seq\u00a7@, \u00a7seq\u00a7@.len() as int)" % viewfn
+        elem = elem.replace(x + "@", "\u00a7seq\u00a7@")
+        it["inserts"].append(("loop:%d:before" % k, "let ghost s1_%d = \u00a7acc\u00a7; proof { %s(\u00a7seq\u00a7@, \u00a7seq\u00a7@.len() as int); }" % (k, lem)))
+        it["loops"][k] = """                    invariant \u00a7ctr\u00a7 <= \u00a7seq\u00a7.len(), \u00a7acc\u00a7 == %(fold)s(s1_%(k)d, %(view)s, \u00a7ctr\u00a7 as int),
+                        %(view)s.len() == \u00a7seq\u00a7@.len(), forall|j: int| 0 <= j < \u00a7seq\u00a7@.len() ==> (#[trigger] %(view)s[j]) == %(elem)s,
+                    decreases \u00a7seq\u00a7.len() - \u00a7ctr\u00a7""" % dict(fold=fold, k=k, view=view, elem=elem)
     return it
 
 
@@ -440,11 +442,11 @@ pub mod fnv1a64 {
              expect_loops=1,
              sig="""        ensures r == fnv(state, bytes@),   // @obl:C16.V.fnv.hash_update
             bytes@.len() == 1 ==> r == fnv_step(state, bytes@[0]),   // @obl:C16.V.fnv.hash_update""",
-             inserts=[("loop:0:before", "let ghost s0 = state;"),
-                      ("loop:0:end", "proof { reveal(fnv_step); assert(bytes@.subrange(0, idx as int).drop_last() =~= bytes@.subrange(0, idx as int - 1)); }"),
-                      ("loop:0:after", "proof { assert(bytes@.subrange(0, idx as int) =~= bytes@); if bytes@.len() == 1 { fnv1(s0, bytes@[0]); assert(bytes@ =~= seq![bytes@[0]]); } }")],
-             loops={0: """            invariant idx <= bytes.len(), state == fnv(s0, bytes@.subrange(0, idx as int)), Fnv1a64Hasher::PRIME == 0x0000_0100_0000_01b3u64,
-            decreases bytes.len() - idx"""},
+             inserts=[("loop:0:before", "let ghost s0 = \u00a7acc\u00a7; let ghost state0 = state;"),
+                      ("loop:0:end", "proof { reveal(fnv_step); assert(\u00a7seq\u00a7@.subrange(0, \u00a7ctr\u00a7 as int).drop_last() =~= \u00a7seq\u00a7@.subrange(0, \u00a7ctr\u00a7 as int - 1)); }"),
+                      ("loop:0:after", "proof { assert(\u00a7seq\u00a7@.subrange(0, \u00a7ctr\u00a7 as int) =~= \u00a7seq\u00a7@); if \u00a7seq\u00a7@.len() == 1 { fnv1(s0, \u00a7seq\u00a7@[0]); assert(\u00a7seq\u00a7@ =~= seq![\u00a7seq\u00a7@[0]]); } }")],
+             loops={0: """            invariant \u00a7ctr\u00a7 <= \u00a7seq\u00a7.len(), \u00a7acc\u00a7 == fnv(s0, \u00a7seq\u00a7@.subrange(0, \u00a7ctr\u00a7 as int)), Fnv1a64Hasher::PRIME == 0x0000_0100_0000_01b3u64,
+            decreases \u00a7seq\u00a7.len() - \u00a7ctr\u00a7"""},
              obls=["C16.V.fnv.hash_update"]),
         dict(kind="fn", file=F, within=[r"^mod fnv1a64$"], name="hash_update_str", qual="postcard_schema::key::hash::fnv1a64::hash_update_str",
              sig="        ensures r == fnv(state, s.spec_bytes())   // @obl:C16.V.fnv.hash_update_str", obls=["C16.V.fnv.hash_update_str"]),
